@@ -12,6 +12,16 @@ import (
 )
 
 func init() {
+	replayers["C17/error-panic-values"] = func(c *Ctx, raw json.RawMessage) string {
+		var cs struct {
+			Payload, Method, Pos int
+			Verb                 string
+		}
+		json.Unmarshal(raw, &cs)
+		redact.RegisterRedactErrorFn(c17PayloadHook)
+		defer redact.RegisterRedactErrorFn(nil)
+		return c17EvalPayload(cs.Payload, cs.Method, cs.Pos, []rune(cs.Verb)[0])
+	}
 	replayers["C17/reentrant-hook"] = func(c *Ctx, raw json.RawMessage) string {
 		var cs struct {
 			Style, E, Pos int
@@ -245,6 +255,92 @@ func c17EvalRe(style, e, pos int, verb rune, seen func(string)) string {
 	}
 	if got != want {
 		return fmt.Sprintf("hook that renders an error and hands its cause back to the printer with %s: %%%c of %q in position %q = %q, want %q (every error reached through the printer is rendered by the hook, as the equivalent nest of SafeFormatters prints)", c17ReStyles[style], verb, err.Error(), c17Positions[pos].Name, got, want)
+	}
+	return ""
+}
+
+// --- errors as panic values -------------------------------------------------------
+
+var c17PanicPayloads = []struct {
+	Name string
+	V    interface{}
+	Want string // what the hook prints for the payload (must appear in the panic report)
+}{
+	{"errors.New", errors.New("pl1"), "H<v>‹pl1›;"},
+	{"wrapping error", wrapErrT{"po", errT{"pi"}}, "H<v>‹po: pi›;"},
+	{"pointer-receiver error", &ptrErr{"pp"}, "H<v>‹ptr:pp›;"},
+}
+
+type c17PanStr struct{ pl interface{} }
+
+func (p c17PanStr) String() string { panic(p.pl) }
+
+type c17PanErr struct{ pl interface{} }
+
+func (p c17PanErr) Error() string { panic(p.pl) }
+
+type c17PanFmt struct{ pl interface{} }
+
+func (p c17PanFmt) Format(fmt.State, rune) { panic(p.pl) }
+
+type c17PanSF struct{ pl interface{} }
+
+func (p c17PanSF) SafeFormat(redact.SafePrinter, rune) { panic(p.pl) }
+
+// c17PanHookErr: an error for which c17PayloadHook itself panics with the payload
+type c17PanHookErr struct{ pl interface{} }
+
+func (p c17PanHookErr) Error() string { return "panhook" }
+
+func c17PayloadHook(err error, p redact.SafePrinter, verb rune) {
+	if e, ok := err.(c17PanHookErr); ok {
+		p.SafeString("before:")
+		panic(e.pl)
+	}
+	if e, ok := err.(c17PanErr); ok {
+		_ = e.Error() // panics with the payload, inside the hook
+	}
+	c17Render(err.Error(), p, verb, false)
+}
+
+func c17EvalPayload(pl, method, pos int, verb rune) string {
+	payload := c17PanicPayloads[pl]
+	var op interface{}
+	var e error
+	switch method {
+	case 0:
+		op = c17PanStr{payload.V}
+	case 1:
+		e = c17PanErr{payload.V}
+	case 2:
+		op = c17PanFmt{payload.V}
+	case 3:
+		op = c17PanSF{payload.V}
+	default:
+		e = c17PanHookErr{payload.V}
+	}
+	var arg interface{}
+	if e != nil {
+		arg = c17Positions[pos].Mk(e)
+	} else {
+		if pos != 0 {
+			return ""
+		}
+		arg = op
+	}
+	var out string
+	if pv, pan := recoverTo(func() { out = string(redact.Sprintf("<%"+string(verb)+">", arg)) }); pan {
+		return fmt.Sprintf("a method of the operand panics with the error %q (%s): the panic escaped: %v", payload.V, payload.Name, pv)
+	}
+	if !strings.Contains(out, "(PANIC=") {
+		return fmt.Sprintf("a method of the operand (kind %d) panics with the error %q in position %q: %%%c gives %q: no PANIC report", method, payload.V, c17Positions[pos].Name, verb, out)
+	}
+	want := payload.Want
+	if strings.HasPrefix(c17Positions[pos].Name, "Safe(") {
+		want = strings.NewReplacer(mStart, "", mEnd, "").Replace(want)
+	}
+	if !strings.Contains(out, want) {
+		return fmt.Sprintf("a method of the operand (kind %d: 0 String, 1 Error inside the hook, 2 Format, 3 SafeFormat, 4 the hook) panics with the error %q in position %q: %%%c gives %q: the report must contain the hook's rendering of that error, %q", method, payload.V, c17Positions[pos].Name, verb, out, want)
 	}
 	return ""
 }
@@ -570,6 +666,24 @@ func checkC17(c *Ctx) {
 			}
 		})
 	}
+	// configuration 2c: an error that reaches the printer as the VALUE of a recovered panic (raised by a formatting
+	// method or by the hook itself) is an error value the printer formats through method dispatch: the hook renders it
+	redact.RegisterRedactErrorFn(c17PayloadHook)
+	c.Section("C17/error-panic-values", map[string]interface{}{"panicking_methods": "String, Error, Format, SafeFormat, the hook itself", "payloads": "errors.New, wrapping error, error in a slice", "positions": nP, "verbs": "vs"}, len(c17PanicPayloads)*5, func(i int, w *Worker) {
+		pl, m := i/5, i%5
+		for pos := 0; pos < nP; pos++ {
+			if !c17Positions[pos].Dispatch {
+				continue
+			}
+			for _, verb := range "vs" {
+				w.Eval()
+				if dt := c17EvalPayload(pl, m, pos, verb); dt != "" {
+					w.Fail("error-panic-value", map[string]interface{}{"Payload": pl, "Method": m, "Pos": pos, "Verb": string(verb)}, dt)
+				}
+			}
+		}
+		w.Seen(uint64(i))
+	})
 	// configuration 3: panicking hook
 	redact.RegisterRedactErrorFn(c17PanicHook)
 	c.Section("C17/panicking-hook", map[string]interface{}{"directives": sp.Size(), "errors": nE, "positions": nP}, sp.Size(), func(i int, w *Worker) {
